@@ -100,6 +100,20 @@ func (w *W) configs() []Config {
 	return out
 }
 
+// configsAlt is configs() in reverse order for odd n. Reuse slots are keyed by string mode, so with
+// the order flipped from one document to the next the last parse of document n and the first of
+// document n+1 go into the same recycled object, back to back (recycled destinations of the walkers
+// then meet a new document in the very buffers they last looked at).
+func (w *W) configsAlt(n int) []Config {
+	c := w.configs()
+	if n%2 == 1 {
+		for i, j := 0, len(c)-1; i < j; i, j = i+1, j-1 {
+			c[i], c[j] = c[j], c[i]
+		}
+	}
+	return c
+}
+
 // parse runs Parse/ParseND with a reused ParsedJson passed by value (so the
 // internal state survives failed calls), or fresh when fresh is set.
 // The result aliases the reused buffers: use it before the next call.
